@@ -1545,6 +1545,10 @@ PROGS4 = [
 'def len(x):\n    print("len called")\n    return 0\n\n\nlen([1])\nprint("done")\n',
 'registry = []\n\n\ndef id(x):\n    registry.append(x)\n    return x\n\n\nid("a")\nid("b")\nprint(registry)\n',
 'import collections.abc, collections.abc\n\nprint(collections.abc is not None)\n',
+'def trace(fn):\n    def wrapper(*a):\n        print("called")\n        return fn(*a)\n    return wrapper\n\n\n@trace\ndef f():\n    return 1\n\n\nf()\nprint("end")\n',
+'class Base:\n    def __init__(self):\n        print("hi")\n\n\nclass A(Base):\n    pass\n\n\nA()\nprint("end")\n',
+'import sys  # pyrefact: ignore\nimport os\nprint(sys.platform != "", os.sep != "")\n',
+'import functools\n\n\n@functools.lru_cache(maxsize=None)\ndef sq(x):\n    print("computing", x)\n    return x * x\n\n\nsq(2)\nsq(2)\nprint("end")\n',
 ]
 
 EVERYDAY = [p.lstrip("\n") for p in PROGS + PROGS2 + PROGS3 + PROGS4]
